@@ -36,9 +36,9 @@ ASSUMPTIONS = [
     "a HeterogeneousLinearModel applied at another resolution uses the nearest-neighbour (cv2.INTER_NEAREST) resampling of its original label map",
 ]
 FLOORS = {
-    "quick": {"two_live_objects": 400, "labelwise_wrapper": 200, "clip": 300, "linear": 300, "combined_composition": 100, "combined_routing": 300, "heterogeneous_linear": 80, "heterogeneous_resolution_history": 100, "combined_routing_grouped": 100, "threshold": 150, "threshold_integer_signals": 500, "kernel_reproduces_values": 60, "kernel_values_updated": 100, "kernel_supports_replaced": 25, "heterogeneous_integer_signals": 150, "combined_with_labelwise_part": 150, "linear_models_on_images": 150, "threshold_3d_label_maps": 100, "combined_vector_valued_dof": 80, "kernel_advanced_updated": 15,
+    "quick": {"two_live_objects": 400, "heterogeneous_update_history": 300, "labelwise_wrapper": 200, "clip": 300, "linear": 300, "combined_composition": 100, "combined_routing": 300, "heterogeneous_linear": 80, "heterogeneous_resolution_history": 100, "combined_routing_grouped": 100, "threshold": 150, "threshold_integer_signals": 500, "kernel_reproduces_values": 60, "kernel_values_updated": 100, "kernel_supports_replaced": 25, "heterogeneous_integer_signals": 150, "combined_with_labelwise_part": 150, "linear_models_on_images": 150, "threshold_3d_label_maps": 100, "combined_vector_valued_dof": 80, "kernel_advanced_updated": 15,
               "kernel_numba_equals_plain_sum": 150, "polynomial_span": 5},
-    "thorough": {"two_live_objects": 4000, "labelwise_wrapper": 2000, "clip": 3000, "linear": 3000, "combined_composition": 1000, "combined_routing": 3000, "heterogeneous_linear": 800, "heterogeneous_resolution_history": 1000, "combined_routing_grouped": 1000, "threshold": 1500, "threshold_integer_signals": 5000, "kernel_reproduces_values": 600, "kernel_values_updated": 1000, "kernel_supports_replaced": 250, "heterogeneous_integer_signals": 1500, "combined_with_labelwise_part": 1500, "linear_models_on_images": 1500, "threshold_3d_label_maps": 1000, "combined_vector_valued_dof": 800, "kernel_advanced_updated": 150,
+    "thorough": {"two_live_objects": 4000, "heterogeneous_update_history": 3000, "labelwise_wrapper": 2000, "clip": 3000, "linear": 3000, "combined_composition": 1000, "combined_routing": 3000, "heterogeneous_linear": 800, "heterogeneous_resolution_history": 1000, "combined_routing_grouped": 1000, "threshold": 1500, "threshold_integer_signals": 5000, "kernel_reproduces_values": 600, "kernel_values_updated": 1000, "kernel_supports_replaced": 250, "heterogeneous_integer_signals": 1500, "combined_with_labelwise_part": 1500, "linear_models_on_images": 1500, "threshold_3d_label_maps": 1000, "combined_vector_valued_dof": 800, "kernel_advanced_updated": 150,
                  "kernel_numba_equals_plain_sum": 1500, "polynomial_span": 5},
 }
 SHARD_TIMEOUT = {"quick": 1500, "thorough": 7200}
@@ -351,6 +351,29 @@ def run_shard(spec, R):
                         out2 = hm(x)
                         good = all(np.allclose(out2[labels == v], (newp[li] * x + newp[nl + li])[labels == v], rtol=1e-14, atol=1e-14) for li, v in enumerate(values))
                         R.check(bool(good), "heterogeneous_linear", {**case, "what": "parameter routing"})
+                        # updates of one kind of parameter on the used object, each followed by a call
+                        cur_s, cur_o = newp[:nl].copy(), newp[nl:].copy()
+                        for step_i in range(3):
+                            kind_u = ["offset", "scaling", "offset_by_dofs", "scaling_by_dofs"][int(rng.integers(0, 4))]
+                            vals_u = rng.uniform(0.5, 2, size=nl)
+                            if kind_u == "offset":
+                                call_u = lambda: hm.update(offset=vals_u.copy())  # noqa: E731
+                            elif kind_u == "scaling":
+                                call_u = lambda: hm.update(scaling=vals_u.copy())  # noqa: E731
+                            else:
+                                call_u = lambda: hm.update_model_parameters(vals_u.copy(), [kind_u.split("_")[0]])  # noqa: E731
+                            oku, _u = R.guarded("heterogeneous_linear", call_u)
+                            if not oku:
+                                break
+                            if kind_u.startswith("offset"):
+                                cur_o = vals_u.copy()
+                            else:
+                                cur_s = vals_u.copy()
+                            oku, out_u = R.guarded("heterogeneous_linear", lambda: hm(x))
+                            if oku:
+                                good_u = all(np.allclose(out_u[labels == v], (cur_s[li] * x + cur_o[li])[labels == v], rtol=1e-14, atol=1e-14) for li, v in enumerate(values))
+                                R.check(bool(good_u), "heterogeneous_linear", {**case, "what": "update of one kind of parameter on a used object, then a call", "update": kind_u, "step": step_i + 1}, group="update_history")
+                                R.count("heterogeneous_update_history")
             # integer-typed signals: the label-wise model still agrees with the homogeneous one (which promotes to float)
             if ok:
                 xi8 = rng.integers(0, 200, size=shp).astype([np.uint8, np.uint16, np.int32][rep % 3])
